@@ -49,7 +49,7 @@ from .core import AnalysisError
 from .astutil import unparse, dotted, walk_no_nested
 
 DIRKINDS = frozenset({'Dir', 'AdjDir', 'CwdDir'})
-ORDER = ['NoneK', 'ObjAttrs', 'Resolved', 'AdjDir', 'Dir', 'CwdDir', 'UserGiven', 'CliArgs', 'Unknown', 'Literal', 'RawToken']
+ORDER = ['NoneK', 'ObjAttrs', 'Resolved', 'AdjDir', 'Dir', 'CwdDir', 'UserGiven', 'CliArgs', 'Unknown', 'Literal', 'RawToken', 'Ambiguous']
 COARSE = {'AdjDir': 'Dir', 'CwdDir': 'Dir', 'CliArgs': 'UserGiven'}
 EMPTY = frozenset()
 NONE = frozenset({'NoneK'})
@@ -714,6 +714,41 @@ class Prov:
                 out[fields.index(k.arg)] = k.value
         return out if len(out) == len(fields) else None
 
+    def object_class(self, node, qual):
+        """The repo class the object evidently belongs to: by construction / self (class_of), or because the function tests
+        isinstance(<the same variable>, Cls) for exactly one class."""
+        cls = self.class_of(node, qual)
+        if cls or not isinstance(node, ast.Name) or qual is None:
+            return cls
+        seen = set()
+        for n in walk_fn(self.fn_of(qual)):
+            if isinstance(n, ast.Call) and dotted(n.func) == 'isinstance' and len(n.args) == 2 and isinstance(n.args[0], ast.Name) and n.args[0].id == node.id:
+                c = n.args[1]
+                for e in (c.elts if isinstance(c, ast.Tuple) else [c]):
+                    if isinstance(e, ast.Name) and e.id in self.facts.classes:
+                        seen.add(e.id)
+        return next(iter(seen)) if len(seen) == 1 else None
+
+    def attr_kinds(self, node, qual):
+        """Kinds of `obj.attr`.  Attribute summaries are per (class, attribute) when the class of the stored-into object is known;
+        a load from an object of known class reads the stores of that class (and of related classes / unknown-class stores), a load
+        from an object of unknown class reads every class - and is marked Ambiguous when the classes disagree, because a same-named
+        attribute of an unrelated class proves nothing about this object."""
+        stores = self.attr_stores().get(node.attr, [])
+        classes = {self._store_class.get((q, id(v), node.attr)) for q, v in stores} if stores else set()
+        if len(classes) <= 1:
+            return set(self.summary(('attr', node.attr)))
+        cls = self.object_class(node.value, qual)
+        if cls is not None:
+            return set(self.summary(('cattr', cls, node.attr)))
+        per = {c: self.summary(('cattr', c, node.attr)) for c in classes if c is not None}
+        out = set()
+        for ks in per.values():
+            out |= ks
+        if len({frozenset(k for k in ks if k != 'NoneK') for ks in per.values()}) > 1:
+            out.add('Ambiguous')
+        return out
+
     def attr_stores(self):
         """{attribute name: [(qual, stored value node)]} over the whole program (`x.a = v`, `setattr(x, 'a', v)`, fields of
         namedtuple constructions)."""
@@ -732,6 +767,7 @@ class Prov:
                         for t in n.targets:
                             if isinstance(t, ast.Attribute):
                                 st.setdefault(t.attr, []).append((q, n.value))
+                                self.__dict__.setdefault('_store_class', {})[(q, id(n.value), t.attr)] = self.class_of(t.value, q)
                     elif isinstance(n, ast.Call) and dotted(n.func) == 'setattr' and len(n.args) == 3 \
                             and isinstance(n.args[1], ast.Constant) and isinstance(n.args[1].value, str):
                         st.setdefault(n.args[1].value, []).append((q, n.args[2]))
@@ -780,6 +816,15 @@ class Prov:
             out = set()
             for q, v in self.__dict__.get('_nt_stores', {}).get((key[1], key[2]), []):
                 out |= self._kinds(v, q)
+            return frozenset(out)
+        if key[0] == 'cattr':
+            _, cls, attr = key
+            out = set()
+            related = set(self.facts.mro(cls)) | {c for c in self.facts.classes if self.facts.is_subclass(c, cls)} if cls in self.facts.classes else {cls}
+            for q, v in self.attr_stores().get(attr, []):
+                sc = self._store_class.get((q, id(v), attr))
+                if sc is None or sc in related:
+                    out |= self._kinds(v, q)
             return frozenset(out)
         if key[0] == 'attr':
             out = set()
@@ -883,6 +928,8 @@ class Prov:
                 return set(self._kinds(st.value, None))
             return {'Unknown'}
         fn = self.fn_of(qual)
+        if self.known_absolute(node, qual):
+            return {'Resolved'}          # an absolute path names its file whatever the working directory is
         out = set()
         defs = self.reaching(qual, node)
         for how, v in defs:
@@ -909,6 +956,43 @@ class Prov:
                         tab.setdefault(n.func.value.id, []).append(('elem', n.args[1]))
             idx[id(fn)] = tab
         return idx[id(fn)].get(name, [])
+
+    def known_absolute(self, node, qual):
+        """The use of variable x is reached only when os.path.isabs(x) held: inside `if os.path.isabs(x):` / the true arm of a
+        conditional expression on it / after a guard clause `if not os.path.isabs(x): <leave>` - with x not rebound in between."""
+        name = node.id
+        fn = self.fn_of(qual)
+
+        def is_test(t, want):
+            if isinstance(t, ast.UnaryOp) and isinstance(t.op, ast.Not):
+                return is_test(t.operand, not want)
+            if isinstance(t, ast.BoolOp) and isinstance(t.op, ast.And) and want:
+                return any(is_test(v, True) for v in t.values)
+            if isinstance(t, ast.BoolOp) and isinstance(t.op, ast.Or) and not want:
+                return any(is_test(v, False) for v in t.values)
+            return want and isinstance(t, ast.Call) and dotted(t.func) == 'os.path.isabs' and len(t.args) == 1 \
+                and isinstance(t.args[0], ast.Name) and t.args[0].id == name
+        rebinds = lambda stmts: any(self.all_defs(ast.Module(body=list(stmts), type_ignores=[]), name))
+        child, p = node, getattr(node, '_parent', None)
+        while p is not None and p is not fn:
+            if isinstance(p, ast.IfExp) and ((child is p.body and is_test(p.test, True)) or (child is p.orelse and is_test(p.test, False))):
+                return True
+            if isinstance(p, ast.BoolOp) and child is not p.values[0]:
+                idx = [i for i, v in enumerate(p.values) if v is child][0]
+                if any(is_test(v, isinstance(p.op, ast.And)) for v in p.values[:idx]):
+                    return True
+            if isinstance(child, ast.stmt):
+                for field in ('body', 'orelse', 'finalbody'):
+                    lst = getattr(p, field, None)
+                    if isinstance(lst, list) and any(y is child for y in lst):
+                        idx = [i for i, y in enumerate(lst) if y is child][0]
+                        if isinstance(p, ast.If) and is_test(p.test, field == 'body') and not rebinds(lst[:idx]):
+                            return True
+                        for k, prev in enumerate(lst[:idx]):
+                            if isinstance(prev, ast.If) and _exits(prev.body) and not prev.orelse and is_test(prev.test, False) and not rebinds(lst[k + 1:idx]):
+                                return True
+            child, p = p, getattr(p, '_parent', None)
+        return False
 
     def _mutation_kinds(self, fn, name, qual):
         out = set()
@@ -999,7 +1083,7 @@ class Prov:
                 if node.attr in self.namedtuples().get(t, []):
                     out |= self.summary(('ntattr', t, node.attr))
             if not out or self.attr_stores().get(node.attr) or not tags:
-                out |= self.summary(('attr', node.attr))
+                out |= self.attr_kinds(node, qual)
             return out
         if isinstance(node, ast.Call):
             return self._call(node, qual)
@@ -1447,8 +1531,40 @@ class Prov:
                         constraints.append((self._formula(prev.test, qual), False))
                     elif prev.orelse and _exits(prev.orelse) and not _exits(prev.body):
                         constraints.append((self._formula(prev.test, qual), True))
+        # `x = <cwd>` followed by `if t: x = <something else>`: the working directory survives in x only where t was false
+        stmt = node
+        while stmt is not None and not isinstance(stmt, ast.stmt):
+            stmt = getattr(stmt, '_parent', None)
+        if isinstance(stmt, ast.Assign) and stmt.value is node and len(stmt.targets) == 1 and isinstance(stmt.targets[0], ast.Name):
+            x = stmt.targets[0].id
+            par = getattr(stmt, '_parent', None)
+            for field in ('body', 'orelse', 'finalbody'):
+                lst = getattr(par, field, None)
+                if isinstance(lst, list) and any(y is stmt for y in lst):
+                    after = lst[[i for i, y in enumerate(lst) if y is stmt][0] + 1:]
+                    for later in after:
+                        if isinstance(later, ast.If):
+                            d1, m1 = self.block_defs(later.body, x)
+                            d2, m2 = self.block_defs(later.orelse, x) if later.orelse else ([], False)
+                            reads_x = any(isinstance(n, ast.Name) and n.id == x and isinstance(n.ctx, ast.Load) for n in ast.walk(later.test))
+                            if m1 and not d2 and not reads_x and not _exits(later.body):
+                                constraints.append((self._formula(later.test, qual), False))
+                                break
+                            if m2 and not d1 and not reads_x and not _exits(later.orelse):
+                                constraints.append((self._formula(later.test, qual), True))
+                                break
+                        if any(isinstance(n, ast.Name) and n.id == x for n in ast.walk(later)):
+                            break           # x is used (or changed in another way) first
+        # the verdict 'unguarded' is only given for plain uses; inside a literal / table / lambda the evaluation order and the selection
+        # of the value are not followed
+        inner, q_ = node, getattr(node, '_parent', None)
+        odd = False
+        while q_ is not None and not isinstance(q_, ast.stmt):
+            if isinstance(q_, (ast.Dict, ast.List, ast.Tuple, ast.Set, ast.Subscript, ast.Lambda, ast.ListComp, ast.SetComp, ast.DictComp, ast.GeneratorExp)):
+                odd = True
+            inner, q_ = q_, getattr(q_, '_parent', None)
         if not constraints:
-            return 'unguarded'
+            return 'unknown' if odd else 'unguarded'
         atoms = []
 
         def collect(f):
@@ -1480,4 +1596,4 @@ class Prov:
                 violated = True
         if not violated:
             return 'guarded'
-        return 'unguarded' if set(atoms) <= {'E'} else 'unknown'
+        return 'unguarded' if set(atoms) <= {'E'} and not odd else 'unknown'
